@@ -173,6 +173,31 @@ Fixpoint steps_agree (steps : list stepio) (mo : list (list out)) : bool :=
   | _, _ => false
   end.
 
+(* ---- the revision a cache resumes from: the last one the datastore reported for its resource type ----
+   (a completed List's revision, the revision of the last watch event or bookmark).  A Watch must be created from
+   exactly that revision and never from "0"; a List is either revision-less ("0", full resync) or at that revision. *)
+Definition slast_step (l : N) (r : resp) : N :=
+  match r with
+  | RListOk _ lrev => lrev
+  | REvent (EvAdd i) | REvent (EvMod i) => irev i
+  | REvent (EvDel _ r) | REvent (EvBookmark r) => r
+  | _ => l
+  end.
+Definition req_ok (l : N) (q : phase * N) : bool :=
+  match q with
+  | (PWatch, r) => N.eqb r l && negb (N.eqb r 0)
+  | (PList, r) => N.eqb r 0 || N.eqb r l
+  | (PEvents, _) => true
+  end.
+Fixpoint ok_reqs (ls : list N) (steps : list stepio) (reqs : list (phase * N)) : bool :=
+  match steps, reqs with
+  | [], [] => true
+  | St i _ r _ :: steps', q :: reqs' =>
+      let l' := slast_step (nth i ls 0%N) r in
+      req_ok l' q && ok_reqs (set_nth i l' ls) steps' reqs'
+  | _, _ => false
+  end.
+
 Definition phase_eqb (a b : phase) : bool :=
   match a, b with PList, PList | PWatch, PWatch | PEvents, PEvents => true | _, _ => false end.
 Fixpoint reqs_agree (mo : list (list out * (phase * N))) (reqs : list (phase * N)) : bool :=
@@ -197,4 +222,5 @@ Definition check_case (c : case) : bool * bool :=
    end,
    ok_obs gs (c_pre c) (c_steps c)
    && forallb (fun s => negb (spec_panics (step_resp s))) (c_steps c)
-   && match c_panic c with None => true | Some s => spec_panics (step_resp s) end).
+   && match c_panic c with None => true | Some s => spec_panics (step_resp s) end
+   && ok_reqs (map (fun _ => 0%N) gs) (c_steps c) (c_reqs c)).
